@@ -69,7 +69,9 @@ Record cfg := mkCfg {
   c_npre : str;           (* "tunnox:node:" ++ id ++ ":addr" *)
   c_nsuf : str;
   c_route : key -> bool;  (* true: the key lives in the store shared by all nodes; false: in the node's own store *)
-  c_shared_ident : bool   (* the shared store hands back what was stored (memory.Storage) instead of its JSON text *)
+  c_shared_ident : bool;  (* the shared store hands back what was stored (memory.Storage) instead of its JSON text *)
+  c_del_expired : bool    (* LookupWaitingTunnel deletes the key of a record it found expired (the tree as found: true;
+                             with fixes/C09-lookup-does-not-delete.diff: false, the backend's TTL cleans up) *)
 }.
 
 (* NewRoutingTable: ttl == 0 -> 30 s *)
@@ -155,6 +157,7 @@ Section Model.
   Definition st_set (s : state) (cl : cell) (v : sval) (ttl : N) : state :=
     mkS (now s) (bnow s) (m_set (mem s) cl (mkE v (if N.eqb ttl 0 then None else Some (clk s cl + ttl)))).
   Definition st_del (s : state) (cl : cell) : state := mkS (now s) (bnow s) (m_del (mem s) cl).
+  Definition st_del_if (b : bool) (s : state) (cl : cell) : state := if b then st_del s cl else s.
 
   (* the value shape a cell's backend stores for a *WaitingState: local caches are memory.Storage *)
   Definition put_waiting (c : cfg) (cl : cell) (r : waiting) : sval :=
@@ -193,7 +196,7 @@ Section Model.
             | DBadType => (s, RBadType)
             | DOk r =>
                 (* time.Now().After(state.ExpiresAt) -> Delete(key); ErrExpired *)
-                if w_expires r <? now s then (st_del s cl, RExpired) else (s, ROk r)
+                if w_expires r <? now s then (st_del_if (c_del_expired c) s cl, RExpired) else (s, ROk r)
             end
         end
     | ORemove n t =>
